@@ -23,7 +23,7 @@ ANCHORS = [("leuvenmapmatching/map/base.py", "BaseMap.use_latlon"),
            ("leuvenmapmatching/util/dist_latlon.py", "distance_point_to_segment"),
            ("leuvenmapmatching/util/dist_latlon.py", "distance")]
 FLOORS = {"pairs_compared": 1200, "complete_matches_compared": 900, "family:simple": 300, "family:simple_nodes": 300, "family:distance": 300,
-          "southern_hemisphere": 300, "high_latitude": 150, "straddles_antimeridian": 60}
+          "southern_hemisphere": 300, "high_latitude": 150, "straddles_antimeridian": 60, "linked_map_pairs": 600, "linked_map_pairs_with_links": 200}
 ASSUMPTIONS = ["index must be equal; best log-probability within 1e-2*max(1,|x|) (the 0.1 m noise floor of the cross-/along-track formulation, "
                "propagated through d*delta/sigma^2 per step); finer errors of the geodesic primitives are C14's business",
                "node-and-edge mode decides 'edge or end node' by the relative position with an absolute 1e-8 tolerance: cases in which an "
@@ -33,7 +33,111 @@ ASSUMPTIONS = ["index must be equal; best log-probability within 1e-2*max(1,|x|)
                "consecutive observations project within 0.5 m of each other on some edge (not both clamped to the same end) are skipped as borderline"]
 
 
+def gen_links_case(rng):
+    """SqliteMap with diagonal pairs of parallel roads at various separations; parallel roads are linked with
+    connect_parallelroads(D) in both metrics, then a trace that changes from one road of a pair to the other is matched."""
+    m = gen.map_random(rng, n=rng.randint(4, 7), labels="int")
+    m = gen.transform_map(m, SCALE)
+    nid = max(l for l, _ in m["nodes"]) + 1
+    base_labs = [l for l, _ in m["nodes"]]
+    D = rng.choice([20.0, 40.0])
+    pairs = []
+    for _ in range(rng.randint(1, 3)):
+        th = math.radians(rng.uniform(20, 70)) * rng.choice([1, -1])
+        L = rng.uniform(60, 150)
+        p = (rng.uniform(0, 200), rng.uniform(0, 200))
+        v = (math.cos(th), math.sin(th))
+        w = (-v[1], v[0])
+        sep = D * rng.choice([0.4, 0.7, 1.5, 3.0])
+        al = rng.uniform(-0.2, 0.2) * L
+        a1, a2 = p, (p[0] + L * v[0], p[1] + L * v[1])
+        b1 = (p[0] + sep * w[0] + al * v[0], p[1] + sep * w[1] + al * v[1])
+        b2 = (b1[0] + L * v[0], b1[1] + L * v[1])
+        ids = [nid, nid + 1, nid + 2, nid + 3]
+        nid += 4
+        m["nodes"] += [[ids[0], list(a1)], [ids[1], list(a2)], [ids[2], list(b1)], [ids[3], list(b2)]]
+        m["edges"] += [[ids[0], ids[1]], [ids[2], ids[3]]]
+        m["edges"] += [[rng.choice(base_labs), ids[0]], [ids[3], rng.choice(base_labs)]]
+        pairs.append((a1, a2, b1, b2))
+    a1, a2, b1, b2 = pairs[0]
+    tr = []
+    for t, (q1, q2) in ((0.15, (a1, a2)), (0.45, (a1, a2)), (0.6, (b1, b2)), (0.9, (b1, b2))):
+        tr.append([q1[0] + t * (q2[0] - q1[0]) + rng.gauss(0, 2.0), q1[1] + t * (q2[1] - q1[1]) + rng.gauss(0, 2.0)])
+    cfg = gen.gen_cfg(rng, families=("simple", "distance"), ne=False, width=False, agb=False, cut=False)
+    for k in ("obs_noise", "obs_noise_ne", "dist_noise", "dist_noise_ne"):
+        if cfg.get(k) is not None:
+            cfg[k] = cfg[k] * SCALE
+    lat = rng.choice([rng.uniform(-60, 60), rng.uniform(50, 60), -rng.uniform(50, 60)])
+    return {"map": m, "trace": tr, "cfg": cfg, "center": [lat, rng.uniform(-180, 180)], "links": D, "cls": "parallel_links"}
+
+
+def _link_sets(sm, edges, succ):
+    out = {}
+    for e in edges:
+        out[e] = sorted((a, b) for a, _, b, _ in sm.edges_nbrto(e) if (a, b) not in succ[e])
+    return out
+
+
+def check_links(ctx, case):
+    """parallel roads linked in both metrics: same links, same match."""
+    m = case["map"]
+    D = case["links"]
+    pc = place(case)
+    es = [tuple(e) for e in m["edges"]]
+    succ = {e: {f for f in es if f[0] == e[1]} for e in es}
+    smp = build.make_sqlite(m, ctx.scratch)
+    sml = build.make_sqlite(pc["map"], ctx.scratch)
+    try:
+        smp.connect_parallelroads(dist=D)
+        sml.connect_parallelroads(dist=D)
+        ctx.evaluated(2)
+        ctx.count("linked_map_pairs")
+        lp, ll = _link_sets(smp, es, succ), _link_sets(sml, es, succ)
+        if any(lp.values()):
+            ctx.count("linked_map_pairs_with_links")
+            ctx.nontriv(case)
+        cd = gen.coords(m)
+        wit = {"planar": {"map": m, "trace": case["trace"], "cfg": case["cfg"], "links": D, "cls": "parallel_links"}, "latlon": pc, "center": case["center"]}
+        for e in es:
+            if lp[e] != ll[e]:
+                f = sorted(set(lp[e]) ^ set(ll[e]))[0]
+                a, b, c, d = cd[e[0]], cd[e[1]], cd[f[0]], cd[f[1]]
+                def slope(p, q):
+                    x, y = p[0] - q[0], p[1] - q[1]
+                    return 0.0 if x == 0 else math.atan(abs(y / x))
+                dang = abs(abs(slope(a, b) - slope(c, d)) - math.pi / 180)
+                dist = rg.pl_segseg(a, b, c, d)
+                gaps = []
+                for ax in (0, 1):
+                    lo1, hi1 = min(a[ax], b[ax]), max(a[ax], b[ax])
+                    lo2, hi2 = min(c[ax], d[ax]), max(c[ax], d[ax])
+                    gaps += [abs(lo2 - hi1), abs(lo1 - hi2)]
+                if dang < math.radians(0.05) or abs(dist - D) < 1.0 or min(gaps) < 1.0:
+                    ctx.count("skipped_borderline_link")
+                    return
+                ctx.violation("C15:parallel-road-links-differ", wit,
+                              f"connect_parallelroads({D}): road {e} is linked to {lp[e]} on the planar map and to {ll[e]} on the lat-lon map "
+                              f"(roads {e} and {f} are {dist:.2f} m apart)")
+                return
+        res = []
+        for sm_, tr_ in ((smp, case["trace"]), (sml, pc["trace"])):
+            mt = build.make_matcher(sm_, case["cfg"])
+            res.append(build.canon(mt, mt.match(build.trace(tr_))))
+        c0, c1 = res
+        if any(isinstance(k, list) and len(k) >= 4 for k, _ in c0.get("path") or []):
+            pass
+        if c0["empty"] != c1["empty"] or c0["idx"] != c1["idx"]:
+            ctx.violation(f"C15:index-differs:{case['cfg']['family']}:linked-roads", wit, f"planar idx {c0['idx']}; lat-lon idx {c1['idx']}")
+        elif not c0["empty"] and not abs(c0["best"] - c1["best"]) <= 1e-2 * max(1.0, abs(c0["best"])):
+            ctx.violation(f"C15:best-probability-differs:{case['cfg']['family']}:linked-roads", wit, f"planar {c0['best']!r}, lat-lon {c1['best']!r}")
+    finally:
+        build.close_sqlite(smp)
+        build.close_sqlite(sml)
+
+
 def gen_case(rng, i, tier):
+    if i % 12 == 5:
+        return gen_links_case(rng)
     case = mcase.gen_mcase(rng, ne=False, width=False, agb=(rng.random() < 0.3), tighten_p=0.0, cut=False, sparse_p=0.0, max_obs=9,
                            kinds=("random", "grid", "chain"), labels=("int", "str"), hostile=(rng.random() < 0.3))
     m = gen.transform_map(case["map"], SCALE)
@@ -41,7 +145,7 @@ def gen_case(rng, i, tier):
     case["map"] = m
     case["trace"] = gen.transform_trace(case["trace"], SCALE)
     cfg = case["cfg"]
-    for k in ("obs_noise", "obs_noise_ne", "dist_noise"):
+    for k in ("obs_noise", "obs_noise_ne", "dist_noise", "dist_noise_ne"):
         if cfg.get(k) is not None:
             cfg[k] = cfg[k] * SCALE
     lat = rng.choice([rng.uniform(-60, 60), rng.uniform(50, 60), -rng.uniform(50, 60), rng.uniform(-5, 5)])
@@ -70,6 +174,8 @@ def run(case):
 
 
 def check_case(ctx, case):
+    if case.get("cls") == "parallel_links":
+        return check_links(ctx, case)
     fam = case["cfg"]["family"]
     try:
         mt0, c0 = run(case)
@@ -160,9 +266,16 @@ def replay_case(ctx, wit):
     if "planar" in wit:
         case = dict(wit["planar"])
         case["center"] = wit["center"]
+        case.setdefault("cls", wit["planar"].get("cls"))
         return check_case(ctx, case)
     return check_case(ctx, wit)
 
+
+# no result depends on the log level: a tenth of the cases runs with the package logger at DEBUG (replayable: the flag is
+# part of the case / of the recorded witness)
+_dbg_gen, _dbg_chk = env.debug_dimension(0.1)
+gen_case = _dbg_gen(gen_case)
+check_case = _dbg_chk(check_case)
 
 TECHNIQUE = "runtime monitoring: differential monitor over sibling executions (planar metres vs the same case placed on the sphere by a reference azimuthal-equidistant mapping)"
 LEVEL_TEXT = ("{Q} (quick) / {T} (thorough) street-scale cases matched in both metrics; the matched index must be equal and the best log-probability "
